@@ -111,6 +111,8 @@ def install(it):
         if isinstance(v, (str, bytes, list, tuple, dict, set, frozenset)):
             return len(v)
         if isinstance(v, Model):
+            if not hasattr(v, "m___len__"):
+                raise Unsupported(f"len() of {v.model_name}")
             return v.m___len__(it)
         if isinstance(v, Obj):
             return it.call_method(v, "__len__", [])
